@@ -260,9 +260,12 @@ def _b_list(I, a, k):
     if isinstance(v, (SSeq, SArr, SRecList)):
         return v
     if isinstance(v, Sym) and v.kind == STR:
-        # list(str): a sequence of one-character strings; modelled as the string itself where only
-        # indexing/len are used afterwards
-        return _L().CharList(v)
+        # list(str): the array of its one-character substrings (mutable copy)
+        q = z3.Int('q_chr')
+        arr = z3.Lambda([q], z3.SubString(v.t, q, 1))
+        a2 = SArr(arr, Sym(INT, z3.Length(v.t)), STR)
+        a2.src = v
+        return a2
     return list(I.iterate_concrete(v))
 
 
@@ -689,6 +692,7 @@ def _rx_finditer(I, pattern, s):
     if mode == 'none':
         return []
     if isinstance(mode, dict) and 'count' in mode:
+        key = key if len(key) < 24 else 'rx' + str(abs(hash(key)) % 10000)
         # up to `count` matches: increasing, non-overlapping (R1); the same (pattern, string) gives the same matches
         ck = ('fi_cache', key, I.term(s).get_id() if not isinstance(s, str) else s)
         if ck in I.p.ghost:
@@ -921,6 +925,17 @@ def _S(I, v):
 def str_method(I, s, name, args, kwargs):
     L = _L()
     args = [I.resolve(a) for a in args]
+    if name == 'join' and isinstance(args[0], SArr) and args[0].elem == STR and s == '':
+        a0 = args[0]
+        r = I.fresh(STR, 'joined')
+        q = z3.Int(I.p.fresh_name('q_join'))
+        tn = I.term(a0.n)
+        all1 = z3.ForAll([q], z3.Implies(z3.And(q >= 0, q < tn), z3.Length(z3.Select(a0.arr, q)) == 1))
+        q2 = z3.Int(I.p.fresh_name('q_join'))
+        I.p.assume(z3.Implies(all1, z3.And(z3.Length(r.t) == tn,
+                                           z3.ForAll([q2], z3.Implies(z3.And(q2 >= 0, q2 < tn),
+                                                                      z3.SubString(r.t, q2, 1) == z3.Select(a0.arr, q2))))))
+        return r
     conc = isinstance(s, str) and not any(is_sym(a) for a in args)
     if conc:
         if name == 'format':
@@ -1025,6 +1040,9 @@ def str_method(I, s, name, args, kwargs):
         return Sym(STR, z3.If(ln >= w, t, z3.Concat(pad, t)))
     if name == 'replace':
         a, b = args[0], args[1]
+        if isinstance(a, str) and isinstance(b, str) and len(a) == 1 and len(b) == 1:
+            from . import specnative
+            return specnative.replace1(I, s, a, b)
         if isinstance(a, str) and len(a) >= 1:
             # z3 has replace_all
             return Sym(STR, z3.ReplaceAll(t, _S(I, a), _S(I, b))) if hasattr(z3, 'ReplaceAll') else _unsup('replace')
